@@ -6,6 +6,7 @@ import (
 	"net/url"
 	"path"
 	"path/filepath"
+	"sort"
 	"strings"
 
 	"verif/sim/internal/eng"
@@ -370,6 +371,25 @@ func (Engine) Run(t *tape.Tape, o eng.Opts) *eng.Result {
 			}
 		} else if !wrote && nextAt >= 0 && headersAtNext != "" && headersAtNext != "X-Echo-Req" {
 			viol("silent-but-headers", "Static stayed silent but left response headers behind: "+headersAtNext+"\n  "+desc)
+		}
+		// ... and none that appear later either: a silent Static must not leave anything armed (a
+		// BeforeFunc, say) that decorates the response the rest of the chain produces. The handler
+		// behind Static reports the header keys it finds and sets none itself.
+		if !wrote && nextAt >= 0 && q.W != nil && q.W.Sent != nil {
+			had := map[string]bool{}
+			for _, k := range strings.Split(headersAtNext, ",") {
+				had[k] = true
+			}
+			var late []string
+			for k := range q.W.Sent {
+				if !had[k] {
+					late = append(late, k)
+				}
+			}
+			sort.Strings(late)
+			if len(late) > 0 {
+				viol("silent-but-headers", "Static stayed silent, yet the response the next handler produced carries headers nobody behind Static set: "+strings.Join(late, ",")+"\n  "+desc)
+			}
 		}
 		if nextAt >= 0 {
 			for i := nextAt; i < len(q.Events); i++ {
